@@ -441,6 +441,8 @@ class World:
             return False
         if kind == "ERR_AFTER":
             raise InjectedError("injected: error after the last byte of %s" % uri)
+        if self.knobs.get("ret_style", "true") == "none":
+            return None  # many user-written download functions simply do not return anything
         return True
 
     def http_get(self, url, **kwargs):
@@ -549,6 +551,7 @@ class World:
                     parent, name = self.fs._lookup(p, want_parent=True)
                     del parent.children[name]
             elif node is None or bytes(node.data) != cur:
+                self.fs.h_mkdirs(posixpath.dirname(p))
                 self.fs.h_write(p, cur)
 
     def snapshot_dir(self):
